@@ -348,6 +348,11 @@ func (acl *ACL) AuthorizeConnection(conn *net.Conn, cmd []string, command intern
 		return errors.New("user must be authenticated")
 	}
 
+	// A user that has been disabled since the connection authenticated can no longer act.
+	if connection.User == nil || !connection.User.Enabled {
+		return errors.New("user is disabled")
+	}
+
 	var notAllowed []string
 
 	// 2. Check if all categories are in IncludedCategories
